@@ -1,3 +1,228 @@
 package main
 
-func runC11dec(id string) int { return 2 }
+import (
+	"context"
+	"encoding/json"
+	"flag"
+	"fmt"
+	"runtime/debug"
+	"strings"
+
+	"github.com/go-fed/activity/streams"
+	"verif/internal/mut"
+	"verif/internal/prng"
+	"verif/internal/verdict"
+)
+
+var (
+	c11From    = flag.Int("from", 0, "C11 worker: first case index")
+	c11Mod     = flag.Int("mod", 1, "C11 worker: number of workers")
+	c11Rem     = flag.Int("rem", 0, "C11 worker: this worker's residue")
+	c11Journal = flag.String("journal", "", "C11 worker: journal file")
+	c11Out     = flag.String("out", "", "C11 worker: findings file")
+)
+
+// decoderSite finds the innermost go-fed frame of a stack.
+func decoderSite(stack string) string {
+	for _, l := range strings.Split(stack, "\n") {
+		l = strings.TrimSpace(l)
+		if strings.HasPrefix(l, "github.com/go-fed/activity/") {
+			f := strings.TrimPrefix(l, "github.com/go-fed/activity/")
+			if i := strings.LastIndex(f, "("); i > 0 {
+				f = f[:i]
+			}
+			return f
+		}
+	}
+	return "unknown"
+}
+
+// runC11dec is the decoder worker of C11: grammar mutations of valid
+// documents and JSON-ish byte strings through ToType and Serialize.
+func runC11dec(id string) int {
+	if *c11Journal == "" {
+		fmt.Println("streamsmon c11 is a worker of cmd/c11drv; run ./run C11")
+		return 2
+	}
+	buildNameIndex()
+	jl, err := mut.OpenJournal(*c11Journal, *c11Out)
+	if err != nil {
+		fmt.Println(err)
+		return 2
+	}
+	counters := map[string]int{}
+	idx := 0
+	one := func(origin string, doc map[string]interface{}, raw string) {
+		i := idx
+		idx++
+		if i < *c11From || i%*c11Mod != *c11Rem {
+			return
+		}
+		var input interface{} = doc
+		if doc == nil {
+			input = raw
+		}
+		jl.Begin(i, origin, input)
+		func() {
+			defer func() {
+				if p := recover(); p != nil {
+					st := string(debug.Stack())
+					jl.Finding(map[string]interface{}{"case": i, "kind": "panic", "origin": origin, "panic": fmt.Sprint(p), "site": decoderSite(st), "input": input, "stack": trimGoFed(st)})
+					counters["panics"]++
+				}
+			}()
+			m := doc
+			if m == nil {
+				var v interface{}
+				if json.Unmarshal([]byte(raw), &v) != nil {
+					counters["not_json"]++
+					return
+				}
+				mm, ok := v.(map[string]interface{})
+				if !ok {
+					counters["not_object"]++
+					return
+				}
+				m = mm
+			}
+			t, err := streams.ToType(context.Background(), m)
+			if err != nil || t == nil {
+				counters["rejected"]++
+				return
+			}
+			counters["accepted"]++
+			if _, err := streams.Serialize(t); err != nil {
+				counters["serialize_errors"]++
+			}
+			// a typed resolver and the id helper walk the decoded value too
+			res, _ := streams.NewTypeResolver()
+			if res != nil {
+				res.Resolve(context.Background(), t)
+			}
+		}()
+		jl.End(i)
+	}
+	// fixed regression inputs (every crasher ever found stays here)
+	for _, fx := range []string{
+		`{"@context":"https://www.w3.org/ns/activitystreams","type":"Note","duration":""}`,
+		`{"@context":"https://www.w3.org/ns/activitystreams","type":"Note","duration":"-"}`,
+		`{"@context":"https://www.w3.org/ns/activitystreams","type":"Video","duration":"P"}`,
+		`{"@context":"https://www.w3.org/ns/activitystreams","type":["Note",5,null],"id":7}`,
+		`{"@context":null,"type":"Note"}`,
+		`{"@context":{"as":"https://www.w3.org/ns/activitystreams"},"type":"as:Note","as:name":[[[]]]}`,
+		`{"@context":[[["https://www.w3.org/ns/activitystreams"]]],"type":"Create","object":{"type":null}}`,
+	} {
+		one("fixed", nil, fx)
+	}
+	var bases []map[string]interface{}
+	bases = append(bases, vocabExamples()...)
+	nGen := 60
+	if *tier == "thorough" {
+		nGen = 300
+	}
+	for i := 0; i < nGen; i++ {
+		g := prng.New(verdict.Seed(), "c11.base", i)
+		T := O.TypeKeys[g.Intn(len(O.TypeKeys))]
+		if O.Types[T].Typeless {
+			continue
+		}
+		bases = append(bases, genCanonicalDoc(T, 2, g))
+	}
+	stride := 5
+	if *tier == "thorough" {
+		stride = 1
+	}
+	for bi, b := range bases {
+		one(fmt.Sprintf("base:%d", bi), b, "")
+		k := 0
+		g := prng.New(verdict.Seed(), "c11.mut", bi)
+		mut.AllMutations(b, 3, g, func(m map[string]interface{}, how string) {
+			k++
+			if (k+bi)%stride != 0 {
+				return
+			}
+			one(fmt.Sprintf("base:%d:%s", bi, how), m, "")
+		})
+	}
+	// JSON-ish byte strings
+	nRaw := 3000
+	if *tier == "thorough" {
+		nRaw = 60000
+	}
+	frags := []string{`{`, `}`, `[`, `]`, `"type"`, `:`, `,`, `"Note"`, `"@context"`, `"https://www.w3.org/ns/activitystreams"`, `null`, `1e9`, `-0`, `"id"`, `"object"`, `"P1Y"`, `""`, `true`, `"as:"`, `"\u0000"`, `{"type":"Create"}`, `"items"`, `"nameMap"`, `"duration"`, `"-"`, `"endTime"`, `"2020-01-01T00:00:00Z"`}
+	leaves := []interface{}{"", "-", "P", "PT", "-P", "P1S", "PT1.5S", "P-1D", "P999999999999999999999Y", "T", "2020-13-45T99:99:99Z", "2020-01-01T00:00Z", "0000-00-00T00:00:00Z", "http://[::1", "%zz", ":", "a:b", "mailto:", "https://", "urn:", " ", "\x00", nil, true, false, 0.0, -1.0, 1e308, -1e308, 1.5, 9007199254740993.0,
+		map[string]interface{}{}, []interface{}{}, []interface{}{[]interface{}{}}, map[string]interface{}{"type": nil}, map[string]interface{}{"type": 5.0}, map[string]interface{}{"type": []interface{}{}}, map[string]interface{}{"type": "Note"}, map[string]interface{}{"id": 7.0, "type": "Person"},
+		map[string]interface{}{"en": 1.0}, map[string]interface{}{"@context": nil, "type": "Link", "href": ""}}
+	var rnd func(g *prng.R, d int) interface{}
+	rnd = func(g *prng.R, d int) interface{} {
+		switch {
+		case d <= 0 || g.Chance(1, 2):
+			return leaves[g.Intn(len(leaves))]
+		case g.Bool():
+			n := g.Intn(4)
+			a := make([]interface{}, n)
+			for i := range a {
+				a[i] = rnd(g, d-1)
+			}
+			return a
+		default:
+			m := map[string]interface{}{}
+			if g.Chance(2, 3) {
+				m["type"] = O.Types[O.TypeKeys[g.Intn(len(O.TypeKeys))]].Name
+			}
+			for i, n := 0, g.Intn(4); i < n; i++ {
+				m[O.Props[O.PropKeys[g.Intn(len(O.PropKeys))]].Name] = rnd(g, d-1)
+			}
+			return m
+		}
+	}
+	for i := 0; i < nRaw; i++ {
+		g := prng.New(verdict.Seed(), "c11.raw", i)
+		if g.Chance(4, 5) {
+			m := map[string]interface{}{"@context": "https://www.w3.org/ns/activitystreams", "type": O.Types[O.TypeKeys[g.Intn(len(O.TypeKeys))]].Name}
+			if g.Chance(1, 6) {
+				m["@context"] = rnd(g, 2)
+			}
+			if g.Chance(1, 8) {
+				m["type"] = rnd(g, 1)
+			}
+			for j, n := 0, g.Range(1, 5); j < n; j++ {
+				name := O.Props[O.PropKeys[g.Intn(len(O.PropKeys))]].Name
+				if g.Chance(1, 6) {
+					name += "Map"
+				}
+				if g.Chance(1, 10) {
+					name = "id"
+				}
+				m[name] = rnd(g, 3)
+			}
+			one("random-json", m, "")
+			continue
+		}
+		var sb strings.Builder
+		for k, m := 0, g.Range(1, 12); k < m; k++ {
+			sb.WriteString(frags[g.Intn(len(frags))])
+		}
+		one("raw", nil, sb.String())
+	}
+	counters["total_cases_enumerated"] = idx
+	jl.Done(counters)
+	return 0
+}
+
+func trimGoFed(s string) string {
+	lines := strings.Split(s, "\n")
+	var keep []string
+	for i := 0; i < len(lines); i++ {
+		if strings.Contains(lines[i], "go-fed/activity") {
+			keep = append(keep, strings.TrimSpace(lines[i]))
+			if i+1 < len(lines) {
+				keep = append(keep, strings.TrimSpace(lines[i+1]))
+			}
+		}
+		if len(keep) > 12 {
+			break
+		}
+	}
+	return strings.Join(keep, "\n")
+}
